@@ -255,3 +255,30 @@ lemma(
     steps=[("unread0", "p._rbuf.content[p._rbuf.pos:] + p.wire"), ("got", (F, "ReceivableProtocol.read"), ["p", "n"])],
     show=["got == unread0[:n]", "p._rbuf.content[p._rbuf.pos:] + p.wire == unread0[len(got):]"],
 )
+
+
+# ---- capability lists / ref advertisement lines / command packets (writers and the NUL-free reader arm) ------------
+contract(
+    prop=["C19"], file=F, func="format_ref_line#nocaps",
+    params={"ref": "bytes", "sha": "bytes", "capabilities": "None"}, returns="bytes", raises_any=False,
+    ensures=["result == sha + b' ' + ref + b'\\n'"],
+)
+contract(
+    prop=["C19"], file=F, func="extract_capabilities#nonul",
+    params={"text": "bytes"}, returns="tuple", raises_any=False,
+    requires=["all(text[k] != 0 for k in range(0, len(text)))"],
+    ensures=["result[0] == text", "len(result[1]) == 0"],
+    note="a ref line without NUL carries no capability list and is returned untouched (lines after the first of an advertisement)",
+)
+contract(
+    prop=["C19"], file=F, func="extract_capabilities#caps",
+    params={"text": "bytes"}, returns="tuple",
+    ghost_params={"p": "int"},
+    requires=["0 <= p and p < len(text) and text[p] == 0",                                   # the NUL that ends the ref name ...
+              "all(text[k] != 0 for k in range(0, p))", "all(text[k] != 0 for k in range(p + 1, len(text)))"],   # ... is the only one
+    raises={},                                                                               # total on such lines
+    options={"exact_split_unpack": True},      # `a, b = x.split(b"\\0")`: exactly one separator or ValueError; a, b the two slices
+    ensures=["result[0] == text[:p]"],
+    note="a first advertisement line `<name> NUL <capabilities>`: the name is returned exactly (no byte of it is "
+         "stripped or lost), whatever the capability list holds; the list itself is the bounded stand-in's subject",
+)
